@@ -56,6 +56,8 @@ def run_reader_check(v, prop, tier, ops_of_interest, ev):
         out_edges.setdefault(canon(e["from"]), []).append(e)
     variants = [dict(stack=s, seed=seed() + 5, level=5) for s in ("raw", "comp", "enc", "comp+enc")]
     variants.append(dict(stack="comp+enc", seed=seed() + 6, level=0, entropy="low", nrecip=2, reader=1))
+    # a reader configuration that also carries the fail-safe option (meant for repair only): nothing may change
+    variants.append(dict(stack="enc", seed=seed() + 7, level=5, fsopt=True))
     build("s20")
 
     def execute(i, par, the_runs, suffix=""):
